@@ -41,7 +41,7 @@ impl Keyspaces {
 
 // NOT under contract: get_keyspaces_to_flush_for_oldest_journal_eviction (Verus: `continue` inside `for` unsupported)
 
-//@extract src/journal/manager.rs :: JournalManager :: maintenance world props=C10+C02+C12
+//@extract src/journal/manager.rs :: JournalManager :: maintenance world desugar_for=1 props=C10+C02+C12
 //@contract-file fn/jmgr_maintenance.c
 //@loop 0
             invariant
@@ -55,15 +55,22 @@ impl Keyspaces {
 //@loop 1
                 invariant
                     *w == w1, self.wf(*w), self.items@.len() > 0, it0 == self.items@[0],
-                    it.snapshot@.remaining().len() == it0.watermarks@.len(),
-                    forall|j: int| 0 <= j < it0.watermarks@.len() ==> *(#[trigger] it.snapshot@.remaining()[j]) == it0.watermarks@[j],
-                    0 <= it.index@ <= it0.watermarks@.len(),
+                    0 <= __fjx_n1 <= it0.watermarks@.len(),
+                    __fjx_it1.remaining().len() == it0.watermarks@.len() - __fjx_n1,
+                    forall|j: int| 0 <= j < __fjx_it1.remaining().len() ==> *(#[trigger] __fjx_it1.remaining()[j]) == it0.watermarks@[__fjx_n1 + j],
+                    forall|j: int| 0 <= j < __fjx_n1 ==> wm_ok(#[trigger] wms_view(it0.watermarks@)[j], *w),
                     self.items@.len() <= old(self).items@.len(), k0 == old(self).items@.len() - self.items@.len(),
                     old(w).sealed.len() == old(self).items@.len(),
                     w1.sealed == old(w).sealed.skip(k0),
                     w1.removed == old(w).removed + Seq::new(k0 as nat, |i: int| old(w).sealed[i].path),
                     w1 == (World { sealed: w1.sealed, removed: w1.removed, ..*old(w) }),
-                    forall|j: int| 0 <= j < it.index@ ==> wm_ok(#[trigger] wms_view(it0.watermarks@)[j], *w),
+                ensures __fjx_n1 == it0.watermarks@.len(),
+                decreases it0.watermarks@.len() - __fjx_n1,
+//@proof before @loop-start 1
+                proof {
+                    assert(w.sealed[0].wms =~= wms_view(it0.watermarks@));
+                    assert(wm_view(*item) == w.sealed[0].wms[__fjx_n1 - 1]);
+                }
 //@proof after self.items.first()
             let ghost w1 = *w;
             let ghost it0 = *item;
